@@ -15,7 +15,10 @@ from harness import common
 from harness.common import zlist, zlistlist, zlit, blit
 from tools import targets
 
-HEADER = "From Precond Require Import Base.PyLib Base.Tensor C06.Records C06.Ref C06.Check.\nOpen Scope Z_scope.\n"
+HEADER = ("From Precond Require Import Base.PyLib Base.Tensor C06.Records C06.Ref C06.Check "
+          "C06.BlockifyModel.\nOpen Scope Z_scope.\n")
+PROP_FILES = ["Properties/C06.v", "Properties/C06_blockify.v"]
+EXTRA_TARGETS = ["theories/C06/Check.vo", "theories/C06/BlockifyModel.vo"]
 
 
 def shapes_upto(rank, dims):
@@ -122,6 +125,27 @@ def term_for(r, mod_check="chk"):
   raise ValueError(k)
 
 
+def tensor_term_for(r):
+  """Tensor-level correspondence (C06.BlockifyModel: Gallina reshape/transpose/pad/slice model of
+  _blockify/_deblockify and reshaper merge/unmerge) for the small cases whose flat contents the
+  worker exported; None when there is nothing to compare."""
+  c = r["case"]
+  k = r["kind"]
+  if k == "blockify" and "blocked_flat" in r:
+    sh, b = zlist(c["shape"]), zlit(c["block"])
+    bs, bf = zlist(r["blocked_shape"]), zlist(r["blocked_flat"])
+    return ("chk_blockify_tensor %s %s %s %s && chk_deblockify_tensor %s %s %s %s %s %s && "
+            "chk_blocks_subtensor %s %s" % (
+                sh, b, bs, bf, sh, b, bs, bf, zlist(r["deblocked_shape"]),
+                zlist(r["deblocked_flat"]), sh, b))
+  if k == "reshaper" and "merged_flat" in r:
+    sh, b, m = zlist(c["shape"]), zlit(c["block"]), zlit(c["merge"])
+    ms, mf = zlist(r["merged_shape_actual"]), zlist(r["merged_flat"])
+    return "chk_merge_tensor %s %s %s %s %s && chk_unmerge_tensor %s %s %s %s %s %s %s" % (
+        sh, b, m, ms, mf, sh, b, m, ms, mf, zlist(r["unmerged_shape"]), zlist(r["unmerged_flat"]))
+  return None
+
+
 def translator_obligations(ctx):
   """Regenerate Gen.v from /repo, compile, and re-prove Gen.f = Ref.f for every function.
   Returns list of broken obligations [(name, log)] and whether Gen.v compiled."""
@@ -175,9 +199,20 @@ def run_cases(ctx, cases, header=HEADER, tag="corr"):
       continue
     terms.append(term_for(r))
     idx.append(i)
+  tterms, tidx = [], []
+  for i in idx:
+    t = tensor_term_for(results[i])
+    if t is not None:
+      tterms.append(t)
+      tidx.append(i)
   vals = ctx.coq_eval(tag, header, terms, per_shard=400)
   for i, v in zip(idx, vals):
     results[i]["model_agrees"] = (v == "true")
+    if v not in ("true", "false"):
+      raise common.CoqError("unexpected verdict %r" % v)
+  tvals = ctx.coq_eval(tag + "_tensor", header, tterms, per_shard=150)
+  for i, v in zip(tidx, tvals):
+    results[i]["tensor_model_agrees"] = (v == "true")
     if v not in ("true", "false"):
       raise common.CoqError("unexpected verdict %r" % v)
   return results
@@ -206,9 +241,11 @@ def run(ctx):
       "transformation actually changes the shape (merge/split/pad/blockify applies)")
   ctx.assumptions += [
       "Coq 8.16.1 kernel + vm_compute", "tools/py2v.py translator (fail-closed)",
-      "jnp.split/concatenate/reshape/transpose semantics are observed on arange tensors, not "
-      "modelled in Coq (tensor-level round trips are decided on the implementation side)"]
-  proofs_ok = ctx.proofs(["Properties/C06.v"], extra_targets=["theories/C06/Check.vo"])
+      "jnp.split/concatenate/reshape/transpose/pad semantics are modelled in Coq on flat row-major "
+      "tensors (Base.Tensor, C06.Transpose) and tied to the implementation on arange tensors: "
+      "block contents for <=64 elements (C06.Check.chk_blocks), Tearfree _blockify/_deblockify and "
+      "reshaper merge/unmerge outputs for <=64 elements (C06.BlockifyModel.chk_*_tensor)"]
+  proofs_ok = ctx.proofs(PROP_FILES, extra_targets=EXTRA_TARGETS)
   broken, gen_ok = translator_obligations(ctx)
   for name, log in broken:
     ctx.log("obligation broken:", name)
@@ -235,7 +272,9 @@ def run(ctx):
              if ctx.cov["evaluations"] % 977 == 0 else None)
     ctx.count(r["kind"])
     bad_impl = (not r["ok"])
-    bad_model = (r.get("model_agrees") is False)
+    bad_model = (r.get("model_agrees") is False) or (r.get("tensor_model_agrees") is False)
+    if r.get("tensor_model_agrees") is not None:
+      ctx.count("tensor-model:" + r["kind"])
     if not bad_impl and not bad_model:
       continue
     k = matches_known(r, known) if bad_impl else None
@@ -252,11 +291,15 @@ def run(ctx):
       ctx.violation("impl-violates", dict(
           input=c, expected="property C06 clauses hold", actual=r.get("why") or r.get("exc"),
           theorem_or_check="implementation-side oracle harness/impl/c06_worker.py",
+          model_agrees=r.get("model_agrees"), tensor_model_agrees=r.get("tensor_model_agrees"),
           impl_output={k2: v for k2, v in r.items() if k2 not in ("case",)}))
     else:
       ctx.violation("correspondence-broken", dict(
-          input=c, expected="model C06.Ref == implementation", actual=term_for(r),
-          theorem_or_check="correspondence C06.Check.chk_%s" % r["kind"],
+          input=c, expected="model C06.Ref / C06.BlockifyModel == implementation",
+          actual=(tensor_term_for(r) if r.get("model_agrees") is not False else term_for(r)),
+          theorem_or_check=("correspondence C06.BlockifyModel (tensor level) %s" % r["kind"]
+                            if r.get("model_agrees") is not False
+                            else "correspondence C06.Check.chk_%s" % r["kind"]),
           note="implementation-side property oracle found nothing wrong on this input"),
           no_input=True)
   # a broken obligation with no concrete failing input found anywhere -> still a violation
@@ -268,10 +311,10 @@ def replay(ctx, rec):
   if not isinstance(c, dict) or "kind" not in c:
     print("replay: nothing executable in this record (%s)" % rec.get("theorem_or_check"))
     return 1
-  ctx.proofs(["Properties/C06.v"], extra_targets=["theories/C06/Check.vo"])
+  ctx.proofs(PROP_FILES, extra_targets=EXTRA_TARGETS)
   res = run_cases(ctx, [c], tag="replay")
   r = res[0]
   print(json.dumps(r, indent=1))
-  bad = (not r["ok"]) or r.get("model_agrees") is False
+  bad = (not r["ok"]) or r.get("model_agrees") is False or r.get("tensor_model_agrees") is False
   print("REPLAY %s" % ("reproduces" if bad else "does not reproduce"))
   return 1 if bad else 0
